@@ -57,6 +57,9 @@ type Op struct {
 	Toks    []int32   `json:"toks,omitempty"`   // burst: tokens of the parallel acquires; request ids rid+1 … rid+n
 	Faults  []Fault   `json:"faults,omitempty"` // faults: the API deletes of these condition names fail from now on (replaces the previous set)
 	Name    string    `json:"name,omitempty"`   // apiDelete: condition name (hex)
+	Insts   []string  `json:"insts,omitempty"`  // swarm: instances (hex)
+	Ups     []string  `json:"ups,omitempty"`    // swarm: upstreams (hex)
+	Rounds  int       `json:"rounds,omitempty"` // swarm: every instance reports `rounds` times for every upstream
 }
 
 // ---- observed / model state ----
@@ -268,5 +271,6 @@ type OutJ struct {
 	E     string   `json:"e,omitempty"`
 	Label string   `json:"label,omitempty"`
 	Rs    []AcqRes `json:"rs,omitempty"`
+	Swarm [][]ItemJ `json:"-"` // swarm: the quotas the real allocation answered, one list per report, in order (oracle)
 	St    *[2]int64 `json:"-"` // burst: the (count, request id) the instance ended with on the real flow control (oracle, not an answer)
 }
